@@ -217,3 +217,9 @@ func indexLoopFromMinusOne(a []int) int {
 	}
 	return s
 }
+
+// a helper that reads the guarded map and is called by a function that holds no lock (and is therefore not checked
+// itself): the helper is checked on its own and fails
+func delegateWithoutLock(k string) int { return peekUnlocked(k) }
+
+func peekUnlocked(k string) int { return table[k] }
